@@ -1,12 +1,14 @@
 pub mod arena;
 pub mod crash;
 pub mod front;
+pub mod layout;
 pub mod pool;
 pub mod proccap;
 pub mod procspec;
 pub mod prune;
 pub mod reclaim;
 pub mod sem;
+pub mod staticck;
 pub mod strings;
 
 use crate::Ctx;
@@ -45,6 +47,8 @@ pub fn dispatch(ctx: &mut Ctx) {
         "gen" => sem::dump(ctx),
         "crash" => crash::run(ctx),
         "front" => front::run(ctx),
+        "static" => staticck::run(ctx),
+        "layout" => layout::run(ctx),
         "reclaim" => reclaim::run(ctx),
         "prune" => prune::run(ctx),
         "strings" => strings::run(ctx),
